@@ -533,7 +533,21 @@ pub fn run(tier: &str, seed: u64) -> i32 {
             }
             let mut c = Case::new("c11.render");
             c.rules = vec![rule.text()];
-            c.docs = recipes.iter().map(|r| gen::build_doc(rule, r)).collect();
+            let mut docs: Vec<DObj> = recipes.iter().map(|r| gen::build_doc(rule, r)).collect();
+            // top-level keys that are literally spelled like the rule's dotted / indexed paths: a path
+            // is resolved by walking, the literal key must not be consulted
+            let paths: Vec<String> = crate::spec::collect_leaves(rule)
+                .iter()
+                .filter(|l| l.prefix.is_empty() && (l.field.contains('.') || l.field.contains('[')))
+                .map(|l| l.field.clone())
+                .collect();
+            if !paths.is_empty() {
+                for (i, d) in docs.iter_mut().enumerate().skip(1).step_by(2) {
+                    let p = &paths[i % paths.len()];
+                    d.0.push((p.clone(), DocVal::s(["a", "b", "A", "5"][i % 4])));
+                }
+            }
+            c.docs = docs;
             vec![c]
         },
         judge,
